@@ -303,5 +303,11 @@ def discharge_all(run, timeout=10, jobs=16, want_all=False):
 def ob_ok(ob):
     r = ob.result or {}
     if ob.expect_sat:
-        return r.get('result') != 'unsat'
+        if r.get('result') != 'unsat':
+            return True
+        # unsatisfiable path condition: a vacuity problem only if the point was reachable before the assumption
+        pair = getattr(ob, 'pair', None)
+        if pair is not None and (pair.result or {}).get('result') == 'unsat':
+            return True
+        return getattr(ob, 'is_before', False)
     return r.get('result') == 'unsat'
